@@ -90,7 +90,8 @@ def pollute(n: int, seed, members=None) -> int:
 
 def pollute_all(seed, maxn=8) -> int:
     """every length 1..maxn (enumerations only up to 4 qubits)"""
-    return sum(pollute(n, f"{seed}:{n}", ["X" * n, "Z" + "I" * (n - 1)]) for n in range(1, maxn + 1))
+    k = sum(pollute(n, f"{seed}:{n}", ["X" * n, "Z" + "I" * (n - 1)]) for n in range(1, maxn + 1))
+    return k + exercise(seed)
 
 
 def _mulstr(a, b):
@@ -105,7 +106,7 @@ def assembled_string(s, r):
     n = len(s)
     if n == 0:
         return PauliString(pauli_str=s)
-    k = r.randrange(9)
+    k = r.randrange(10)
     if k == 0:
         p = PauliString(n=n)
         i = 0
@@ -140,6 +141,17 @@ def assembled_string(s, r):
             if ch != "I":
                 p.set_substring(i, get_single(1, 0, ch))
         return p
+    if k == 8:
+        # a TEMPLATE whose copies were edited in place afterwards (the template itself must stay what it was)
+        import copy as _copy
+        p = PauliString(pauli_str=s)
+        for c in (p.copy(), _copy.copy(p), p.get_substring(0, n), p.expand(n)):
+            for _ in range(2):
+                i = r.randrange(n)
+                c[i] = r.choice("IXYZ")
+            c.set_substring(0, "".join(r.choice("XYZ") for _ in range(n)))
+            c.inc() if str(c) != "Y" * n else None
+        return p
     if k == 7 and n <= 6:
         # walk there with inc() from a smaller string of the enumeration order
         p = PauliString(pauli_str=s)
@@ -160,3 +172,87 @@ def assembled_string(s, r):
         return p
     return PauliString(pauli_str=s)
 
+
+
+# ---- earlier CALLS in the same process: throw-away uses of every public module, whose arguments and results are dropped.
+# A library without hidden state shared between calls (module-level caches keyed too coarsely, shared mutable defaults,
+# constants scaled in place, cursors) answers every later question as a fresh process does.
+def exercise(seed) -> int:
+    import itertools
+    import numpy as np
+    from paulie.common.pauli_string_bitarray import PauliString
+    from paulie.common.pauli_string_collection import PauliStringCollection
+    from paulie.common.pauli_string_linear import PauliStringLinear
+    from paulie.common.pauli_string_factory import get_pauli_string, get_identity, get_single
+    r = random.Random(f"exercise:{seed}")
+    done = [0]
+    def run(f):
+        try:
+            f(); done[0] += 1
+        except Exception:
+            pass
+    def P(s):
+        return PauliString(pauli_str=s)
+    def C(ss):
+        return PauliStringCollection([P(s) for s in ss])
+    def rs(n):
+        return "".join(r.choice("IXYZ") for _ in range(n))
+    # linear combinations (dense matrices of one- and two-letter terms with non-unit coefficients)
+    for terms in ([(0.5, "Y"), (0.5, "X")], [(2j, "Y")], [(0.25, "Z"), (-3, "I")], [(0.5, "YY"), (1.5, "XZ")], [(1j, rs(3)), (2.0, rs(3))]):
+        run(lambda: PauliStringLinear(terms).get_matrix())
+        run(lambda: PauliStringLinear(terms).exponential())
+        run(lambda: (PauliStringLinear(terms) @ PauliStringLinear(terms)).simplify())
+        run(lambda: str(PauliStringLinear(terms) + PauliStringLinear(terms)))
+        run(lambda: PauliStringLinear(terms).trace())
+    # strings: same object on both sides, iteration left half-way, matrices
+    for n in (1, 2, 3, 4):
+        p = P(rs(n))
+        run(lambda: (p.sign(p), p | p, p @ p, p ^ p)); run(lambda: next(iter(p))); run(lambda: p.get_matrix()); run(lambda: hash(p))
+    # classifier: with and without recorder, several lengths, membership with outsiders, alternative generator sets
+    def classify_things(ss, rec):
+        c = C(ss)
+        if rec:
+            from paulie.helpers.recording import RecordGraph
+            c.set_record(RecordGraph())
+        c.get_algebra(); c.get_dla_dim(); c.get_dependents(); c.get_canonic_vertices()
+        n = len(ss[0])
+        c.is_in(C([rs(n), rs(n)])); c.is_eq(C([rs(n)] + ss[:1])); c.select_dependents(C([rs(n), ss[0]]))
+        for _g in itertools.islice(c.gen_generators(), 3):
+            pass
+        if n <= 3:
+            c.get_space(); c.get_commutants(); c.get_commutator_graph()
+        c.sort(); c.find(P(ss[0])); c.replace(P(ss[0]), P("Y" * n)); c.find(P(ss[-1])); c.get_algebra()
+    pools = [["XI", "ZI", "IX"], ["XII", "ZII", "XXI", "IZI", "IXX"], ["XX", "YY"], ["XI", "IZ"], ["XIII", "ZZII", "IXXI", "IIZZ", "IIIX"],
+             ["ZIIII", "XXIII", "IZIII", "IXIII", "IXXII", "IIZII", "IIXXI", "IIIZI", "IIIXX"], [rs(3) for _ in range(4)], [rs(4) for _ in range(5)]]
+    for ss in pools:
+        for rec in (False, True):
+            run(lambda: classify_things(list(ss), rec))
+    # k-local expansions and the two-local table, descending and ascending sizes
+    for n in (12, 9, 7, 6, 5, 4, 3, 8):
+        run(lambda: __import__("paulie.common.two_local_generators", fromlist=["x"]).two_local_algebras(n))
+    run(lambda: get_pauli_string(["XX", "Z"], n=5)); run(lambda: get_pauli_string([P("XY"), P("Z")], n=4)); run(lambda: get_pauli_string("X_2s4"))
+    # compiler: several (N, k), targets that reach the fallback search, one compiler object reused
+    def compiler_things():
+        from paulie.application import pauli_compiler as pc
+        for N, k, ts in ((4, 2, ["IIXY", "IIYZ", "XIII", "XYZI"]), (4, 3, ["XYZX", "IIIZ"]), (3, 2, ["IIX", "XYI"]), (5, 2, ["IIYIY", "ZIIXI"]), (5, 3, ["IIIYY"])):
+            for t in ts:
+                try:
+                    pc.compile_target(P(t), k_left=k)
+                except Exception:
+                    pass
+            pc.construct_universal_set(N, k)
+    run(compiler_things)
+    # applications
+    def apps():
+        from paulie.application.otoc import average_otoc
+        from paulie.application.graph_complexity import average_graph_complexity
+        from paulie.application.fourpoint import fourpoint
+        from paulie.application.matrix_decomposition import matrix_decomposition, matrix_decomposition_diagonal
+        from paulie.application.get_optimal_su2_n import get_optimal_su_2_n_generators
+        g = C(["XI", "ZI", "IX", "IZ", "XX"])
+        average_otoc(g, P("XY"), P("ZI")); average_graph_complexity(g, P("YI")); fourpoint(g, P("XI"), P("IX"), P("XI"), P("IX"))
+        matrix_decomposition(np.arange(16, dtype=float).reshape(4, 4)); matrix_decomposition_diagonal(np.array([1, 2, 3, 4]))
+        get_optimal_su_2_n_generators(C(["XI", "ZI", "IX", "IZ", "XX", "YZ"]))
+        C(["XX", "YY"]).get_full_quadratic_basis()
+    run(apps)
+    return done[0]
